@@ -110,7 +110,7 @@ def execute(ctx: Ctx, cases: list, cases_file: Path, fn, every: int = 20) -> tup
     the prefix (VIOLATION); if the prefix is clean, `judge` raises a machinery failure instead of reporting a pass."""
     limit = float(os.environ.get("VERIF_RSS_LIMIT_GB", "6"))
     budget = float(os.environ.get("VERIF_EXEC_BUDGET_S", "300" if ctx.quick else "3600"))
-    out_limit = float(os.environ.get("VERIF_RESULT_LIMIT_MB", "96")) * 2**20
+    out_limit = float(os.environ.get("VERIF_RESULT_LIMIT_MB", "96" if ctx.quick else "2048")) * 2**20
     t0, base_rss, results, out_bytes = time.time(), _rss_gb(), [], 0
     for i, c in enumerate(cases):
         if i % every == 0 and i and (_rss_gb() - base_rss > limit or time.time() - t0 > budget or out_bytes > out_limit):
